@@ -52,8 +52,17 @@ Cases == { c \in [cluster : Clusters, script : Scripts, try : BOOLEAN,
                   during : Durings \cup {"none"},
                   hold2 : WorkerGates \cup {"none"}] : Feasible(c) }
 
+(* Explicit schedules read off TLC counterexamples of DownstreamImpl (defect cfgs): the sequence of gate
+   arrivals/releases that realises the behaviour on the real code.
+   steps: hold:<gate>[#n] | arrive:<gate> | release:<gate> | await:<hook event> | do:<event> *)
+StaleTimer(t) == << "hold:ds.pe#6", "hold:ds." \o t \o ".fire", "hold:ds.upreset.retry", "arrive:ds.pe", "arrive:ds." \o t \o ".fire",
+                    "release:ds.pe", "arrive:ds.upreset.retry", "release:ds." \o t \o ".fire", "await:ds." \o t \o ".done",
+                    "release:ds.upreset.retry" >>
+StepCases == { [cluster |-> cl, script |-> sc, try |-> (t = "ptimer"), hold |-> "none", during |-> "none", hold2 |-> "none",
+                steps |-> StaleTimer(t)] : cl \in {"r1", "r2"}, sc \in {<<"ok">>, <<"hang">>, <<"s503", "ok">>, <<"close">>}, t \in {"ptimer", "gtimer"} }
+
 VARIABLE c
-Init == c \in Cases
+Init == c \in Cases \cup StepCases
 Next == UNCHANGED c
 Emit == PrintT(<<"CASE", ToJson(c)>>)
 ====
